@@ -436,10 +436,15 @@ pub fn def(idx: usize, prev: Vec<Def>, o: DefOpts) -> BoxedStrategy<Def> {
                         let mut rules: Vec<(String, String)> = vec![];
                         for (k, r) in repl {
                             let key = segs[k % segs.len()].clone();
-                            if rules.iter().any(|(a, _)| *a == key) || segs.iter().any(|s| s == r) {
+                            if rules.iter().any(|(a, _)| *a == key) {
                                 continue;
                             }
                             rules.push((key, r.to_string()));
+                            // sometimes a second rule whose search key is the first rule's replacement:
+                            // the documented single pass over the original segments must not chain
+                            if k % 3 == 0 && !rules.iter().any(|(a, _)| a == r) {
+                                rules.push((r.to_string(), "chained".to_string()));
+                            }
                         }
                         d.attr.replace = rules;
                         d.attr.crate_attr = if crate_attr < 3 { 0 } else { crate_attr - 3 };
